@@ -6,7 +6,7 @@ Tie:    harness/simdrv.c <-> Drivers/SimMain.lean on generated scenarios (profil
 """
 import simcheck
 
-PROFILES = ['pool', 'poolprio', 'mixed', 'lifecycle']
+PROFILES = ['pool', 'poolprio', 'mixed', 'lifecycle', 'poolleft']
 
 
 def run(chk):
